@@ -4,24 +4,37 @@
 set -u
 export GOFLAGS=-mod=mod GOPROXY=off GOSUMDB=off GOTOOLCHAIN=local GOWORK=off
 ROOT="$(cd "$(dirname "$0")" && pwd)"
-export VERIF_ROOT="$ROOT"
+# VERIF_REPO / VERIF_OUT are for trials of seeded changes in a scratch checkout (tools/tryseed.sh);
+# the registered commands never set them: they build /repo's working tree and write under /verif.
+REPO="${VERIF_REPO:-/repo}"
+export VERIF_ROOT="${VERIF_OUT:-$ROOT}"
 BIN="$ROOT/.work/bin"
+OVERLAY="$ROOT/.work/overlay"
+MODFLAG=""
+if [ "$REPO" != /repo ]; then
+  TAG="$(echo "$REPO" | tr -c 'A-Za-z0-9' _)"
+  BIN="$ROOT/.work/alt/$TAG/bin"; OVERLAY="$ROOT/.work/alt/$TAG/overlay"
+  mkdir -p "$ROOT/.work/alt/$TAG"
+  sed "s#=> /repo/ociregistry#=> $REPO/ociregistry#" "$ROOT/harness/go.mod" > "$ROOT/.work/alt/$TAG/go.mod"
+  cp "$REPO/ociregistry/go.sum" "$ROOT/.work/alt/$TAG/go.sum"
+  MODFLAG="-modfile=$ROOT/.work/alt/$TAG/go.mod"
+fi
 mkdir -p "$BIN"
 if [ "${1:-}" = replay ] && [ -n "${2:-}" ]; then REPLAY_FILE="$(realpath "$2")"; fi
 cd "$ROOT/harness" || exit 2
-cp /repo/ociregistry/go.sum go.sum 2>/dev/null
+[ "$REPO" = /repo ] && cp /repo/ociregistry/go.sum go.sum 2>/dev/null
 SCHED_IDS=" C16 C08 C19 C10 C11 "
 build() {
-  go build -tags verif -o "$BIN/vcheck" ./cmd/vcheck || { echo "harness build failed" >&2; exit 2; }
+  go build $MODFLAG -tags verif -o "$BIN/vcheck" ./cmd/vcheck || { echo "harness build failed" >&2; exit 2; }
 }
 # instrumented build: overlay regenerated from /repo's current sources on every run
 build_sched() {
-  go build -o "$BIN/vrewrite" ./cmd/vrewrite || { echo "vrewrite build failed" >&2; exit 2; }
-  "$BIN/vrewrite" -repo /repo/ociregistry -out "$ROOT/.work/overlay" ocimem ociunify ociauth ociclient > "$ROOT/.work/vrewrite.log" || { cat "$ROOT/.work/vrewrite.log" >&2; exit 2; }
-  go build -tags verif -overlay "$ROOT/.work/overlay/overlay.json" -o "$BIN/vcheck-sched" ./cmd/vcheck || { echo "instrumented build failed" >&2; exit 2; }
+  go build $MODFLAG -o "$BIN/vrewrite" ./cmd/vrewrite || { echo "vrewrite build failed" >&2; exit 2; }
+  "$BIN/vrewrite" -repo "$REPO/ociregistry" -out "$OVERLAY" ocimem ociunify ociauth ociclient > "$OVERLAY.log" || { cat "$OVERLAY.log" >&2; exit 2; }
+  go build $MODFLAG -tags verif -overlay "$OVERLAY/overlay.json" -o "$BIN/vcheck-sched" ./cmd/vcheck || { echo "instrumented build failed" >&2; exit 2; }
 }
 build_race() {
-  go build -race -tags verif -overlay "$ROOT/.work/overlay/overlay.json" -o "$BIN/vcheck-race" ./cmd/vcheck || { echo "instrumented -race build failed" >&2; exit 2; }
+  go build $MODFLAG -race -tags verif -overlay "$OVERLAY/overlay.json" -o "$BIN/vcheck-race" ./cmd/vcheck || { echo "instrumented -race build failed" >&2; exit 2; }
 }
 case "${1:-}" in
   setup)
